@@ -7,7 +7,7 @@ CONSTANTS
   BufCounts = {1}
   FlashSizes = {1, 2}
   MaxLen = 30
-  Fates = {"ok", "nack", "lostcmd", "lostreply"}
+  Fates = {"ok", "nack", "lostcmd", "lostreply", "stray"}
   Bug = "retry8"
   Observe = TRUE
 INVARIANT PropOK
